@@ -72,7 +72,8 @@ Definition create_labels (cols : list (list N)) (w cnt : nat) : list N :=
 Definition chunk := list (list N).     (* K columns of byteRows bytes *)
 
 Definition recv_chunk (g0 g1 : nat -> nat -> N) (bb : nat -> N) (ofs pos w : nat) : chunk :=
-  map (fun j => map (fun k => N.lxor (N.lxor (g1 j (pos + k)) (g0 j (pos + k))) (bb (ofs / 8 + k)))
+  let bbs := map (fun k => bb (ofs / 8 + k)) (seq 0 w) in      (* bbuf[ofs/8:], shared by all columns *)
+  map (fun j => map (fun k => N.lxor (N.lxor (g1 j (pos + k)) (g0 j (pos + k))) (nth k bbs 0%N))
                     (seq 0 w))
       (seq 0 K).
 
@@ -224,9 +225,19 @@ Fixpoint mapi_from {A B} (f : nat -> A -> B) (i : nat) (l : list A) : list B :=
   end.
 Definition mapi {A B} (f : nat -> A -> B) (l : list A) : list B := mapi_from f 0 l.
 
-(* rows ofs .. ofs+8w-1 of the batch travel in this chunk *)
+(* one column: byte k is xored with the error bits of rows row+8k .. row+8k+7
+   (running row counter: no multiplication/division per byte in the extracted model) *)
+Fixpoint tamper_col (Ej : nat -> bool) (row : nat) (col : list N) : list N :=
+  match col with
+  | [] => []
+  | v :: r => N.lxor v (byte_of (fun t => Ej (t + row))) :: tamper_col Ej (8 + row) r
+  end.
+
+(* rows ofs .. ofs+8w-1 of the batch travel in this chunk: byte k of column j
+   is xored with err_byte E j (ofs/8 + k) *)
 Definition tamper_chunk (E : nat -> nat -> bool) (ofs : nat) (c : chunk) : chunk :=
-  mapi (fun j col => mapi (fun k v => N.lxor v (err_byte E j (ofs / 8 + k))) col) c.
+  let start := 8 * (ofs / 8) in
+  mapi (fun j col => tamper_col (E j) start col) c.
 
 Fixpoint tamper_chunks (E : nat -> nat -> bool) (ofs : nat) (cs : list chunk) : list chunk :=
   match cs with
